@@ -11,7 +11,7 @@ from extract import ExtractionError
 
 LR = "prqlc/prqlc-parser/src/lexer/lr.rs"
 
-LABELS = ["EQ1", "EQI", "QS3"]
+LABELS = ["EQ1", "EQI", "EQD", "QS3"]
 FUNCTIONS = ["escape_all_except_quotes", "quote_string"]
 RLIMIT = 80
 
@@ -19,7 +19,7 @@ ASSUMED = [
     {"what": "opaque external types", "keys": ["pub struct Opaque"]},
     {"what": "`s.chars()` hands out the characters of s in order (str_chars + R11 iterator); String::new / with_capacity / push / push_str append characters; "
              "`result.extend(ch.escape_default())` appends esc_default(ch); format!(..) is an unknown text; char::is_control is an unknown predicate",
-     "keys": ["fn str_chars", "fn string_new", "fn string_push", "fn string_push_str", "fn string_extend_escape", "spec fn esc_default", "fn opaque_format", "fn char_is_control",
+     "keys": ["fn str_chars", "fn string_new", "fn string_push", "fn string_push_str", "fn string_extend_escape", "spec fn esc_default", "fn string_extend_escape_other", "spec fn esc_other", "fn opaque_format", "fn char_is_control",
               "fn string_with_capacity"]},
     {"what": "ORACLE LINK (std + lexer): for every char that is not a quote, what char::escape_default prints (\\\\t \\\\r \\\\n \\\\\\\\ \\\\' \\\\\\\" , printable ASCII as itself, "
              "everything else \\\\u{HEX} with 1-6 digits) is an escape the PRQL lexer decodes to that char (lexer contract: unit lex_strings ES2a, ES2c); validated by the "
@@ -51,6 +51,9 @@ verus! {
 #[verifier::external_body] pub fn string_push_str(s: &mut String, t: &str) ensures final(s)@ == old(s)@ + t@, { unimplemented!() }
 pub uninterp spec fn esc_default(c: char) -> Seq<char>;
 #[verifier::external_body] pub fn string_extend_escape(s: &mut String, c: char) ensures final(s)@ == old(s)@ + esc_default(c), { unimplemented!() }
+// any other std escaping (char::escape_debug, escape_unicode): appends a text about which the oracle link says nothing
+pub uninterp spec fn esc_other(c: char) -> Seq<char>;
+#[verifier::external_body] pub fn string_extend_escape_other(s: &mut String, c: char) ensures final(s)@ == old(s)@ + esc_other(c), { unimplemented!() }
 #[verifier::external_body] pub fn opaque_format() -> String { unimplemented!() }
 #[verifier::external_body] pub fn char_is_control(c: char) -> bool { unimplemented!() }
 
@@ -119,6 +122,8 @@ def build(X):
     ef.rewrite_re("R5", r"\bString::with_capacity\(([^()]*(?:\([^()]*\))?[^()]*)\)", r"string_with_capacity(0)", count=None, why="String::with_capacity (capacity is irrelevant)")
     ef.rewrite_re("R5", r"\bs\.chars\(\)", "str_chars(s)", count=None, why="str::chars")
     ef.rewrite_re("R5", r"\bresult\.extend\((\w+)\.escape_default\(\)\)", r"string_extend_escape(&mut result, \1)", count=None, why="String::extend(char::escape_default())")
+    ef.rewrite_re("R5", r"\bresult\.extend\((\w+)\.escape_(?:debug|unicode)\(\)\)", r"string_extend_escape_other(&mut result, \1)", count=None,
+                  why="String::extend(char::escape_debug() / escape_unicode()): a spelling for which no agreement with the lexer has been established")
     ef.rewrite_re("R5", r"\bresult\.push_str\(&format!\((?:[^()]|\([^()]*\))*\)\)", "string_push_str(&mut result, opaque_format().as_str())", count=None, why="format!: unknown text")
     ef.rewrite_re("R5", r"\bresult\.push_str\(", "string_push_str(&mut result, ", count=None, why="String::push_str")
     ef.rewrite_re("R5", r"\bresult\.push\(", "string_push(&mut result, ", count=None, why="String::push")
@@ -147,7 +152,7 @@ def build(X):
             ps = ps0.push(piece);
             assert(ps.drop_last() =~= ps0);
             assert(s@.take(k0 + 1) =~= s@.take(k0).push(ch));
-            assert forall|i: int| 0 <= i < k0 + 1 implies decodes_to(#[trigger] ps[i], s@.take(k0 + 1)[i]) by {
+            assert forall|i: int| 0 <= i < k0 + 1 implies decodes_to(#[trigger] ps[i], s@.take(k0 + 1)[i]) by { // @EQD
                 if i < k0 { assert(ps[i] == ps0[i]); assert(s@.take(k0 + 1)[i] == s@.take(k0)[i]); }
             }
         }
